@@ -218,6 +218,9 @@ func readCollectionSize(source io.Reader, version primitive.ProtocolVersion) (si
 		var sizeInt32 int32
 		sizeInt32, err = primitive.ReadInt(source)
 		size = int(sizeInt32)
+		if err == nil && size < 0 {
+			err = fmt.Errorf("expected collection size >= 0, got: %d", size)
+		}
 	} else {
 		var sizeInt16 uint16
 		sizeInt16, err = primitive.ReadShort(source)
